@@ -111,12 +111,15 @@ def get_contour(mask):
         #                             cv2.RETR_EXTERNAL,
         #                             cv2.CHAIN_APPROX_NONE)
         # c2 = conts[0].reshape(-1, 2)
-        conts = find_contours(mi.transpose(),
+        # The mask is padded, so that the contours of events touching
+        # the image border are closed (marching squares leaves contours
+        # open at the border of the array).
+        conts = find_contours(np.pad(mi, 1).transpose(),
                               level=.9999,
                               positive_orientation="low",
                               fully_connected="high")
-        # get the longest contour
-        c0 = sorted(conts, key=lambda x: len(x))[-1]
+        # get the longest contour (and undo the padding)
+        c0 = sorted(conts, key=lambda x: len(x))[-1] - 1
         # round all coordinates to pixel values
         c1 = np.asarray(np.round(c0), int)
         # remove duplicates
